@@ -1,4 +1,5 @@
 import HL.Lemmas.LexExt
+import HL.Lemmas.LexTrim
 /-!
   Lines: no scan function other than `scanNewline` consumes a line feed, and `scanNewline`
   consumes exactly one (`next_step`).  So every LF byte becomes exactly one Newline token, the
@@ -6,7 +7,7 @@ import HL.Lemmas.LexExt
   blanks only.
 -/
 namespace HL.Lex
-open HL HL.Utf8
+open HL HL.Utf8 HL.Spec.LexSpec
 
 local notation "LF" => (0x0A : UInt8)
 
@@ -116,6 +117,31 @@ theorem scanAccountF_nl (n : Nat) (z l : Z) : AdvNL z (scanAccountF n z l).1 := 
           · exact AdvNL.refl z
           · exact hbump.trans (ih _ _)
 
+/-- the state at `lastNonSpace` is reached without a line feed too -/
+theorem scanAccountF_nl_last (n : Nat) (z0 z l : Z) (hl : AdvNL z0 l) (hz : AdvNL z0 z) :
+    AdvNL z0 (scanAccountF n z l).2 := by
+  induction n generalizing z l with
+  | zero => exact hl
+  | succ n ih =>
+    unfold scanAccountF
+    split
+    · exact hl
+    · rename_i b t hzz
+      by_cases hb : b = LF
+      · subst hb
+        simp only [decodeRune_lf]
+        simp [isAccountTerminator]
+        exact hl
+      · have hbump := hz.trans (bump_nl hzz hb)
+        simp only []
+        split
+        · split
+          · exact hl
+          · exact ih _ _ hl hbump
+        · split
+          · exact hl
+          · exact ih _ _ hbump hbump
+
 theorem scanNumberF_nl (n : Nat) (z : Z) (hd : Bool) : AdvNL z (scanNumberF n z hd) := by
   induction n generalizing z hd with
   | zero => exact AdvNL.refl z
@@ -138,21 +164,89 @@ theorem scanNumberF_nl (n : Nat) (z : Z) (hd : Bool) : AdvNL z (scanNumberF n z 
 
 /-! ### tokens that start where the lexer stands and stay on the line -/
 
+/-- the bytes a scan consumed behind the End of its token -/
+def gapBehind (r : Token × Z) : Bytes := (r.2.before.take (r.2.before.length - r.1.stop.off)).reverse
+
+/-- What a scan may consume behind the End of its token: behind an account name one blank
+    (`scanAccount` steps over a single blank and then meets a terminator or the end of the
+    input), behind a text a run of white space (the value is trimmed and the token ends with
+    it), otherwise nothing — the token ends where the lexer stands. -/
+def TailOk (ty : TokType) (tl : Bytes) : Prop :=
+  if ty = .text then wsOnly tl = true
+  else if ty = .account then tl = [] ∨ tl = [0x20]
+  else tl = []
+
+/-- Where a token that is not a Newline token ends: on its line, at or behind its start, at or
+    before the position the lexer is left in, with only `TailOk` bytes between; every token but
+    an account or a text token ends exactly where the lexer is left (line, column, offset). -/
+structure TokStop (r : Token × Z) : Prop where
+  line : r.1.stop.line = r.1.pos.line
+  ge : r.1.pos.off ≤ r.1.stop.off
+  le : r.1.stop.off ≤ r.2.before.length
+  tail : TailOk r.1.ty (gapBehind r)
+  eq : r.1.ty ≠ .account → r.1.ty ≠ .text → r.1.stop = r.2.position
+
 structure NL (z : Z) (r : Token × Z) : Prop where
   adv : AdvNL z r.2
   pos : r.1.pos = z.position
   ty : r.1.ty ≠ .newline
-  stop : r.1.stop = r.2.position
+  stop : TokStop r
+
+theorem tailOk_nil (ty : TokType) : TailOk ty [] := by
+  unfold TailOk
+  split
+  · exact wsOnly_nil
+  · split
+    · exact Or.inl rfl
+    · rfl
+
+theorem AdvNL.adv {z e : Z} (h : AdvNL z e) : Adv z e := by
+  obtain ⟨p, h1, h2, _, _⟩ := h
+  exact ⟨p, h1, h2⟩
 
 theorem mkTok_nl {z e : Z} (ty : TokType) (v : Bytes) (he : AdvNL z e) (hty : ty ≠ .newline) :
-    NL z (mkTok ty v z e) := ⟨he, rfl, hty, rfl⟩
+    NL z (mkTok ty v z e) := by
+  obtain ⟨_, _, _, _, hl⟩ := id he
+  refine ⟨he, rfl, hty, hl, he.adv.before_le, Nat.le_refl _, ?_, fun _ _ => rfl⟩
+  simp only [gapBehind, mkTok, Z.position, Nat.sub_self, List.take_zero, List.reverse_nil]
+  exact tailOk_nil ty
 
 theorem scanDate_nl (z : Z) : NL z (scanDate z) :=
   mkTok_nl _ _ (advWhile_nl _ (by decide) z) (by decide)
 theorem scanIndent_nl (z : Z) : NL z (scanIndent z) :=
   mkTok_nl _ _ (advLine_nl _ z) (by decide)
-theorem scanText_nl (z : Z) : NL z (scanText z) :=
-  mkTok_nl _ _ (advLine_nl _ z) (by decide)
+/-- the bytes between a position `p` inside `scanned = between z e` and `e` -/
+theorem take_before_drop {z e : Z} (h : Adv z e) (k : Nat) :
+    (e.before.take (e.before.length - (z.before.length + k))).reverse = (between z e).drop k := by
+  have hle := h.before_le
+  simp only [between]
+  rw [List.drop_reverse, List.length_take, List.take_take]
+  congr 2
+  omega
+
+theorem scanText_nl (z : Z) : NL z (scanText z) := by
+  have ha := advLine_nl (fun ch => !(ch == 0x3B || ch == 0x7C)) z
+  have hb := textStop_bounds ha.adv
+  obtain ⟨_, _, _, _, hl⟩ := id ha
+  refine ⟨ha, rfl, (by simp [scanText, mkTokAt]), ?_, hb.1, hb.2.1, ?_, fun _ h => absurd rfl h⟩
+  · simp only [scanText, mkTokAt, textStop, Z.position]
+    split
+    · exact hl
+    · rfl
+  · simp only [scanText, mkTokAt, gapBehind, TailOk, if_true]
+    generalize advLine (fun ch => !(ch == 0x3B || ch == 0x7C)) z = e at ha hb ⊢
+    unfold textStop
+    simp only []
+    split
+    · simp [Z.position, wsOnly_nil]
+    · obtain ⟨tl, h1, h2, _⟩ := trimRightFunc_spec (between z e)
+      simp only []
+      rw [take_before_drop ha.adv]
+      have : (between z e).drop (trimRightFunc (between z e)).length = tl := by
+        conv => lhs; arg 2; rw [h1]
+        rw [List.drop_left]
+      rw [this]
+      exact h2
 theorem scanStatus_nl {z : Z} (hp : peek z ≠ LF) : NL z (scanStatus z) :=
   mkTok_nl _ _ (advance_nl hp) (by decide)
 theorem scanSign_nl {z : Z} (hp : peek z ≠ LF) : NL z (scanSign z) :=
@@ -198,8 +292,17 @@ theorem scanCurrencySymbol_nl {z : Z} {b : UInt8} {t : Bytes} (hz : z.after = b 
 theorem scanNumber_nl (z : Z) : NL z (scanNumber z) :=
   mkTok_nl _ _ (scanNumberF_nl _ z false) (by decide)
 
-theorem scanAccount_nl (z : Z) : NL z (scanAccount z) :=
-  mkTok_nl _ _ (scanAccountF_nl _ z z) (by decide)
+theorem scanAccount_nl (z : Z) : NL z (scanAccount z) := by
+  have ha := scanAccountF_nl z.after.length z z
+  have hadv := scanAccountF_adv z.after.length z z (Adv.refl z)
+  have htl := scanAccountF_tail z.after.length z z [] (by simp) (Or.inl rfl)
+  obtain ⟨_, _, _, _, hl⟩ := id ha
+  obtain ⟨pl, _, hpl, hnl, hll⟩ := scanAccountF_nl_last z.after.length z z z (AdvNL.refl z) (AdvNL.refl z)
+  refine ⟨ha, rfl, (by simp [scanAccount, mkTokAt]), hll, hadv.2.1.before_le, hadv.2.2.before_le, ?_,
+    fun h _ => absurd rfl h⟩
+  simp only [scanAccount, mkTokAt, gapBehind, TailOk, Z.position]
+  rw [if_neg (by decide), if_pos trivial]
+  exact htl
 
 theorem scanDirectiveOrAccount_nl (z : Z) : NL z (scanDirectiveOrAccount z) := by
   unfold scanDirectiveOrAccount
@@ -276,7 +379,7 @@ inductive Step (z : Z) (r : Token × Z) : Prop
       (hbefore : r.2.before = pre.reverse ++ sp.reverse ++ z.before)
       (hline : r.2.line = z.line) (hty : r.1.ty ≠ .newline)
       (hpl : r.1.pos.line = z.line) (hpo : r.1.pos.off = z.before.length + sp.length)
-      (hstop : r.1.stop = r.2.position) : Step z r
+      (hstop : TokStop r) : Step z r
   | newline (sp cr : Bytes) (hsp : ∀ c ∈ sp, isBlank c = true) (hcr : cr = [] ∨ cr = [0x0D])
       (hafter : z.after = sp ++ cr ++ LF :: r.2.after)
       (hbefore : r.2.before = LF :: cr.reverse ++ sp.reverse ++ z.before)
@@ -432,9 +535,18 @@ theorem next_step (C : Classes) (z : Z) : Step z (next C z) := by
 end HL.Lex
 
 namespace HL.Lex
-/-- a token ends where the lexer stands afterwards (line, column and offset) -/
-theorem next_stop (C : Classes) (z : Z) : (next C z).1.stop = (next C z).2.position := by
+/-- every token but an account or a text token ends where the lexer stands afterwards (line,
+    column and offset) -/
+theorem next_stop (C : Classes) (z : Z) (h1 : (next C z).1.ty ≠ .account) (h2 : (next C z).1.ty ≠ .text) :
+    (next C z).1.stop = (next C z).2.position := by
+  cases next_step C z with
+  | tok sp pre hsp hpre hafter hbefore hline hty hpl hpo hstop => exact hstop.eq h1 h2
+  | newline sp cr hsp hcr hafter hbefore hline hcol hstart hty hpl hpo hstop => exact hstop
+
+/-- an account token and a text token end on their line, at or behind their start, at or before
+    the position the lexer stands at afterwards; what lies between is `TailOk` -/
+theorem next_tokStop (C : Classes) (z : Z) (h : (next C z).1.ty ≠ .newline) : TokStop (next C z) := by
   cases next_step C z with
   | tok sp pre hsp hpre hafter hbefore hline hty hpl hpo hstop => exact hstop
-  | newline sp cr hsp hcr hafter hbefore hline hcol hstart hty hpl hpo hstop => exact hstop
+  | newline sp cr hsp hcr hafter hbefore hline hcol hstart hty hpl hpo hstop => exact absurd hty h
 end HL.Lex
